@@ -328,6 +328,7 @@ structure MonSt where
   armedBad : Bool := false       -- "armed while disconnected" already reported (edge-triggered)
   credit : Mon.Credit := {}
   ivl : Mon.Interval := {}
+  q2open : List Nat := []         -- C07: inbound QoS 2 ids notified, exchange still open
 deriving Inhabited
 
 def ivContains (ivs : List Alloc.Iv) (v : Nat) : Bool := ivs.any fun iv => iv.lo ≤ v && v ≤ iv.hi
@@ -404,6 +405,24 @@ def monitorCall (cfg : Cfg) (m : MonSt) (name : String) (ln : Nat) (op : List St
     let (peer, r) := match Mon.peerStepEvs peerTam peer evs with
       | some t => (t, r)
       | none => (peer, r.viol s!"C13 unresolvable_alias@{site}" s!"{here}: a PUBLISH was emitted that a conformant receiver cannot resolve (peer TAM {peerTam}): {evS}")
+    -- C13: the emitted PUBLISH resolves, at the receiver, to the topic the application asked for
+    let r := match op with
+      | "send" :: _ =>
+        (match parseDescr oracle with
+         | some p =>
+           if p.ver = 5 ∧ p.kind = Kind.publish then
+             let tbl := match delivered with | some _ => [] | none => (if op = ["closed"] then [] else m.peer)
+             match Mon.peerResolve tbl p, Mon.sentPublishes evs with
+             | some want, [q] =>
+               (match Mon.peerResolve tbl q with
+                | some got =>
+                  if got ≠ want then
+                    r.viol s!"C13 wrong_topic@{site}" s!"{here}: the application asked for topic {want} (bytes); the emitted PUBLISH (topic {q.topic}, alias {showOptN q.alias}) resolves at a conformant receiver (table {tbl}) to {got}: {evS}" else r
+                | none => r)
+             | _, _ => r
+           else r
+         | none => r)
+      | _ => r
     -- C11 / C17: the gates, evaluated on the implementation's observations
     let statusOf (x : String) : Status := if x = "C" then .connected else if x = "G" then .connecting else .disconnected
     let sessionKeys := ["pidfree", "puback", "pubrec", "pubcomp", "store", "h2", "need_store"]
@@ -606,7 +625,28 @@ def monitorCall (cfg : Cfg) (m : MonSt) (name : String) (ln : Nat) (op : List St
               r.viol s!"C15 no_rearm_after_send@{site}" s!"{here}: a client sent a packet but did not re-arm the PINGREQ timer ({ex} ms expected): {evS}" else r
         else r
       | _ => r
-    ({ prev := dig, armed := armed, peer := peer, peerTam := peerTam, armedBad := armedBad, credit := cr, ivl := iv }, r)
+    -- C07: inbound QoS 2 exactly once per exchange
+    let q2 : List Nat := match op with
+      | ["restore_h", ids] => if ids = "-" then [] else ((ids.splitOn ",").filterMap (fun (w : String) => w.toNat?)).eraseDups
+      | ["restore_h"] => []
+      | ["closed"] => if gp "need_store" = "1" then m.q2open else []
+      | _ => m.q2open
+    let q2 := if newSession then [] else q2
+    let (q2', twice) := Mon.q2Step q2 evs
+    let r := if !twice.isEmpty then
+        r.viol s!"C07 notified_twice@{site}" s!"{here}: QoS 2 PUBLISH {twice} notified to the application again although no PUBREL was received, no error PUBREC sent and no new session started since its first notification (open exchanges {q2}): {evS}" else r
+    let r := match op with
+      | "recv" :: _ =>
+        let o := parseRecvOracle oracle
+        (match parseParsed o.parsed with
+         | .ok p =>
+           let id := p.pid.getD 0
+           let notified := evs.any fun (e : Ev) => match e with | .recv q => q.kind = Kind.publish ∧ q.pid = some id | _ => false
+           if o.frame ≠ "none" ∧ p.kind = Kind.publish ∧ p.qos = 2 ∧ stBefore = "C" ∧ !Mon.hasError evs ∧ !notified ∧ !q2.contains id then
+             r.viol s!"C07 swallowed@{site}" s!"{here}: a valid QoS 2 PUBLISH (id {id}) was accepted without error but not notified, although no earlier PUBLISH of this exchange was notified (open exchanges {q2}): {evS}" else r
+         | .error _ => r)
+      | _ => r
+    ({ prev := dig, armed := armed, peer := peer, peerTam := peerTam, armedBad := armedBad, credit := cr, ivl := iv, q2open := q2' }, r)
 
 structure ConnRun where
   cs : ConnSt := {}
